@@ -2,6 +2,8 @@ package c06
 
 import (
 	"fmt"
+	"strings"
+	"sync"
 	"unsafe"
 
 	"github.com/ohler55/slip"
@@ -13,29 +15,128 @@ import (
 // variables a, b, c; every step is source text -> ReadString -> Eval.
 type slipImpl struct {
 	scope *slip.Scope
+	box   [nLoc]bool        // container created for this history
+	sites map[string]string // call sites defined in this history -> the name they got
 }
 
-func (m *slipImpl) reset() {
+var boxClassOnce sync.Once
+
+var globalSites = map[string]bool{}
+
+var siteCounter int
+
+// container set-up forms (evaluated once per history, only when the history mentions the location)
+const (
+	boxClassDef = "(defclass c06-box () ((s :initform nil :initarg :s)))"
+	hashSetup   = "(setq h (make-hash-table))"
+	objSetup    = "(setq o (make-instance 'c06-box))"
+	// op 0: read, 1: write, 2: push, 3: pop, 4: (setq x (cdr x))
+	closSetup = "(setq k (let ((x nil)) (lambda (op v) (cond ((eql op 0) x) ((eql op 1) (setq x v)) ((eql op 2) (push v x)) " +
+		"((eql op 3) (pop x)) ((eql op 4) (setq x (cdr x)))))))"
+)
+
+func defineBoxClass() {
+	boxClassOnce.Do(func() {
+		if _, err := lisp.EvalIn(slip.NewScope(), boxClassDef); err != nil {
+			panic("c06: cannot define the container class: " + err.String())
+		}
+	})
+}
+
+var boxSetup = [nLoc]string{3: hashSetup, 4: objSetup, 5: closSetup}
+
+func (m *slipImpl) reset(hist []*opDef) {
 	m.scope = slip.NewScope()
 	for _, v := range varNames {
 		m.scope.Let(slip.Symbol(v), nil)
 	}
+	m.box = [nLoc]bool{}
+	m.sites = nil
 	if _, err := lisp.EvalIn(m.scope, "(setq a (list 1 2 3 4))"); err != nil {
 		panic("c06: cannot build the initial state: " + err.String())
+	}
+	for _, o := range hist {
+		for loc := 3; loc < nLoc; loc++ {
+			if !mentions(o, loc) || m.box[loc] {
+				continue
+			}
+			if loc == 4 {
+				defineBoxClass()
+			}
+			if _, err := lisp.EvalIn(m.scope, boxSetup[loc]); err != nil {
+				panic("c06: cannot build the container " + varNames[loc] + ": " + err.String())
+			}
+			m.box[loc] = true
+		}
 	}
 }
 
 func (m *slipImpl) exec(o *opDef, n int64) *execErr {
-	_, err := lisp.EvalIn(m.scope, o.lisp(n))
+	if o.site != nil && o.site.once {
+		if o.site.name == "c06-box-class" {
+			defineBoxClass()
+		} else if !globalSites[o.site.name] {
+			if _, err := lisp.EvalIn(slip.NewScope(), o.site.def); err != nil {
+				return &execErr{class: "site-definition:" + err.Class, msg: err.Message, goFault: err.GoFault}
+			}
+			globalSites[o.site.name] = true
+		}
+	} else if o.site != nil && m.sites[o.site.name] == "" {
+		// the call site is defined once per history, before its first use; a defun gets a name of its own in every
+		// history (function definitions are global: nothing may be left over from another history)
+		if m.sites == nil {
+			m.sites = map[string]string{}
+		}
+		name := o.site.name
+		if o.site.isFn {
+			siteCounter++
+			name = fmt.Sprintf("%s-%d", o.site.name, siteCounter)
+		} else {
+			m.scope.Let(slip.Symbol(name), nil)
+		}
+		if _, err := lisp.EvalIn(m.scope, expand(o.site.def, -1, -1, -1, 0, name)); err != nil {
+			return &execErr{class: "site-definition:" + err.Class, msg: err.Message, goFault: err.GoFault}
+		}
+		m.sites[o.site.name] = name
+	}
+	form := o.lisp(n)
+	if o.site != nil && !o.site.once && o.site.isFn {
+		form = strings.ReplaceAll(form, "("+o.site.name+" ", "("+m.sites[o.site.name]+" ")
+		form = strings.ReplaceAll(form, "("+o.site.name+")", "("+m.sites[o.site.name]+")")
+	}
+	_, err := lisp.EvalIn(m.scope, form)
 	if err != nil {
 		return &execErr{class: err.Class, msg: err.Message, goFault: err.GoFault}
 	}
 	return nil
 }
 
-func (m *slipImpl) observe() (st [3]obsVar) {
-	for i, v := range varNames {
-		st[i] = observeObject(m.scope.Get(slip.Symbol(v)))
+func (m *slipImpl) observe() (st state) {
+	for i := 0; i < 3; i++ {
+		st[i] = observeObject(m.scope.Get(slip.Symbol(varNames[i])))
+	}
+	if m.box[3] {
+		if ht, ok := m.scope.Get(slip.Symbol("h")).(slip.HashTable); ok {
+			st[3] = observeObject(ht[slip.Fixnum(1)])
+		} else {
+			st[3].bad = "container-lost"
+		}
+	}
+	if m.box[4] {
+		if inst, ok := m.scope.Get(slip.Symbol("o")).(slip.Instance); ok {
+			v, _ := inst.SlotValue(slip.Symbol("s"))
+			st[4] = observeObject(v)
+		} else {
+			st[4].bad = "container-lost"
+		}
+	}
+	if m.box[5] {
+		v, err := lisp.EvalIn(m.scope, "(funcall k 0 nil)")
+		if err != nil {
+			st[5].bad = "container-lost"
+		} else {
+			st[5] = observeObject(v)
+		}
 	}
 	return
 }
